@@ -9,6 +9,8 @@ plain Python dict location -> value; after every transition the two dumps
 view after the SUB has returned - are taken on forks of the machine and must
 equal the dict."""
 import itertools
+import json
+import time
 
 from .. import impl
 from ..explore import VX
@@ -80,6 +82,22 @@ def _diff_fields(drv, exp, obs):
     return bad, n
 
 
+def _decl_at_failure(drv, exp, obs):
+    """the declaration whose line of a dump was being produced when the run
+    stopped: the first expected line that is not completely present in the
+    observed text -> 'class:kind' of that declaration ('-' if it is not a
+    declaration line)"""
+    el, ol = exp.split('\r\n'), obs.split('\r\n')
+    i = len(ol) - 1
+    if i < 0 or i >= len(el):
+        return '-'
+    tag = el[i].split('|')[0]
+    if tag[:1] == 'D' and tag[1:].isdigit() and int(tag[1:]) < len(drv.decls):
+        d = drv.decls[int(tag[1:])]
+        return f'{d.cls}:{d.shape.kind}'
+    return '-'
+
+
 class FastVX(VX):
     """VX whose nodes stop *in front of* an INPUT instruction whose script
     queue is empty (instead of executing it, catching impl.Exhausted and
@@ -113,6 +131,17 @@ class FastVX(VX):
                 ticks += 1
         return 'halt', None, ticks, None
 
+    _last = (None, None)
+
+    def key(self, nd):
+        """the canonical state of a node, computed once (the check callback
+        and the explorer both need it)"""
+        if self._last[0] is nd:
+            return self._last[1]
+        k = VX.key(self, nd)
+        self._last = (nd, k)
+        return k
+
     def feed(self, node, lines):
         """fork node, answer the next INPUTs with lines, run on; not counted
         as a transition (used for observations)"""
@@ -124,10 +153,21 @@ class FastVX(VX):
 
 
 class Explorer:
-    def __init__(self, drv, opt, dbg, max_depth, viol_cap=40):
+    def __init__(self, drv, opt, dbg, max_depth, viol_cap=40, binary=None, lean=False):
+        # lean (quick tier): a read is explored as the last operation of a
+        # sequence only (the dump operation - which reads everything - can
+        # be followed by anything), and drivers whose explored operations use
+        # constant subscripts are observed through the constant-subscript
+        # dump only
+        self.lean = lean
         self.drv = drv
         self.opt = opt
         self.dbg = dbg
+        self.binary = binary
+        self.obs_memo = {}       # canonical VM state -> expected texts of the observations
+        self.memo_hits = 0
+        self.nontrivial = 0      # distinct VM states whose model store is not all-default
+        self.st0 = None
         self.max_depth = max_depth
         self.viol = []
         self.model = {}
@@ -141,7 +181,7 @@ class Explorer:
 
     # -- violation ------------------------------------------------------
     def _violation(self, divergence, probe, path_ops, probe_lines, expected, observed,
-                   end=None, op=None, victims=None):
+                   end=None, op=None, victims=None, at=None):
         drv = self.drv
         feat = drv.feature_base()
         feat['divergence'] = divergence
@@ -155,6 +195,8 @@ class Explorer:
             feat['op_target'] = (f'{op.leaf.decl.cls}:{op.leaf.decl.shape.kind}'
                                  if op.leaf is not None else '-')
         feat['victims'] = victims or '-'
+        # the declaration that the failing statement was accessing
+        feat['at'] = at or (feat['op_target'] if probe == 'op-output' else '-')
         feat['config'] = cfg_name(self.opt, self.dbg)
         lines = [o.line for o in path_ops] + list(probe_lines)
         case = {'driver': drv.ident(), 'describe': drv.describe(),
@@ -186,6 +228,7 @@ class Explorer:
         drv = self.drv
         if parent is None:
             st = drv.initial()
+            self.st0 = st
             self.model[child.path] = st
             op = None
             exp_out = ''
@@ -202,14 +245,34 @@ class Explorer:
         if child.halted:
             self._violation('abnormal-end', 'op-output', path_ops, [], exp_out,
                             {'end': _end_of(child), 'output': obs_out,
-                             'where': child.outcome.where}, end=_end_of(child), op=op)
+                             'where': child.outcome.where}, end=_end_of(child), op=op,
+                            at=(_decl_at_failure(drv, exp_out, obs_out)
+                                if op is not None and op.leaf is None else None))
             self.menus[child.path] = {}
             return []
         if obs_out != exp_out:
             self._violation('value', 'op-output', path_ops, [], exp_out, obs_out, op=op)
-        self.menus[child.path] = {o.line: o for o in drv.menu(st)}
-        # observations on one fork: the probes are run one after the other
+        if self.lean and op is not None and op.kind == 'read':
+            self.menus[child.path] = {}
+        else:
+            self.menus[child.path] = {o.line: o for o in drv.menu(st)}
+        # observations on one fork: the probes are run one after the other.
+        # They depend on the machine state only, so a state that was observed
+        # before (reached by another operation sequence) is observed again
+        # only if the model now expects something else - which is then a
+        # violation, because the earlier observation agreed with the model.
         probes = drv.probes(st)
+        if self.lean and drv.mode == 'c':
+            probes = [p for p in probes if p[0] != 'dump-computed']
+        sig = tuple(p[2] for p in probes)
+        key = self.vx.key(child)
+        if self.obs_memo.get(key) == sig:
+            self.memo_hits += 1
+            return []
+        if key not in self.obs_memo:
+            self.obs_memo[key] = sig
+            if st != self.st0:
+                self.nontrivial += 1
         lines = [ln for p in probes for ln in p[1]]
         nd = self.vx.feed(child, lines)
         segs = _segments(nd.env.events)[len(child.path) + 1:]
@@ -236,7 +299,8 @@ class Explorer:
                 self._violation('abnormal-end', name, path_ops, upto, exp_acc,
                                 {'end': end, 'output': ''.join(segs),
                                  'where': nd.outcome.where if nd.halted else None},
-                                end=end, op=op)
+                                end=end, op=op,
+                                at=_decl_at_failure(drv, exp_acc, ''.join(segs)))
                 break
             if obs != exp:
                 d = _diff_fields(drv, exp, obs)
@@ -255,11 +319,13 @@ class Explorer:
 
     def run(self):
         drv = self.drv
-        r = impl.compile_text(drv.source, self.opt, self.dbg, want_listing=False)
-        if not r.ok:
-            self._violation('compile', 'compile', [], [], 'the driver compiles', r.brief())
-            return {'states': 0, 'transitions': 0}
-        mod = impl.load(r.binary)
+        if self.binary is None:
+            r = impl.compile_text(drv.source, self.opt, self.dbg, want_listing=False, limit=300.0)
+            if not r.ok:
+                self._violation('compile', 'compile', [], [], 'the driver compiles', r.brief())
+                return {'states': 0, 'transitions': 0}
+            self.binary = r.binary
+        mod = impl.load(self.binary)
         self.vx = FastVX(mod, self.menu, self.check, horizon=60000, max_depth=self.max_depth)
         self.vx.run()
         return self.vx.stats()
@@ -274,36 +340,60 @@ def depth_for(drv, dmax, cap):
 
 
 def explore_chunk(chunk, tier):
-    """chunk: list of (ident dict, configs, dmax, cap)"""
+    """chunk: list of (family name, ident dict, configs, dmax, cap, lean)"""
     impl.parse_cache(True)
     viol = []
     st = {'evaluations': 0, 'states': 0, 'transitions': 0,
           'traces_validated_against_impl': 0, 'probes': 0, 'dedup_hits': 0,
-          'drivers': 0, 'driver_configs': 0, 'outcomes': set(),
-          'depth_hist': {}, 'horizon_hits': 0, 'sources': set()}
-    for ident, cfgs, dmax, cap in chunk:
+          'drivers': 0, 'driver_configs': 0, 'distinct_modules': 0,
+          'observations_skipped_same_state': 0, 'distinct_nontrivial': 0, 'outcomes': set(),
+          'depth_hist': {}, 'horizon_hits': 0, 'sources': set(), 'cpu_by_driver': []}
+    for fam_name, ident, cfgs, dmax, cap, lean in chunk:
+        t0 = time.process_time()
         drv = G.make_driver(ident)
         d = depth_for(drv, dmax, cap)
         st['drivers'] += 1
         st['sources'].add(hash(drv.source))
         per_cfg = []
+        # configurations whose module is byte-identical outside the debug
+        # section run the same computation: one exploration serves them all
+        groups = {}
         for o, g in cfgs:
-            ex = Explorer(drv, o, g, d)
-            s = ex.run()
+            r = impl.compile_text(drv.source, o, g, want_listing=False, limit=300.0)
             st['driver_configs'] += 1
+            if not r.ok:
+                ex = Explorer(drv, o, g, d)
+                ex._violation('compile', 'compile', [], [], 'the driver compiles', r.brief())
+                per_cfg.append((ex.viol, [cfg_name(o, g)]))
+                continue
+            sec = impl.split_sections(r.binary)
+            k = tuple(sec.get(i) for i in (1, 2, 3, 4))
+            grp = groups.get(k)
+            if grp is None:
+                groups[k] = [r.binary, (o, g), [cfg_name(o, g)]]
+            else:
+                grp[2].append(cfg_name(o, g))
+        for binary, (o, g), names in groups.values():
+            ex = Explorer(drv, o, g, d, binary=binary, lean=lean)
+            s = ex.run()
+            st['distinct_modules'] += 1
             st['states'] += s.get('states', 0)
             st['transitions'] += s.get('transitions', 0)
             st['dedup_hits'] += s.get('dedup_hits', 0)
             st['horizon_hits'] += s.get('horizon_hits', 0)
             st['traces_validated_against_impl'] += ex.validated
             st['probes'] += ex.probes_run
+            st['observations_skipped_same_state'] += ex.memo_hits
             st['evaluations'] += ex.validated + ex.probes_run
+            st['distinct_nontrivial'] += ex.nontrivial
             for oc in ex.outcomes:
                 st['outcomes'].add((ident['family'],) + oc)
             key = 'd%d' % d
             st['depth_hist'][key] = st['depth_hist'].get(key, 0) + 1
-            per_cfg.append(ex.viol)
+            per_cfg.append((ex.viol, names))
         viol.extend(_merge_configs(per_cfg, cfgs))
+        dt = time.process_time() - t0
+        st['cpu_by_driver'].append((fam_name, round(dt, 2), drv.describe() + ' ' + ','.join(cfg_name(o, g) for o, g in cfgs)))
     return viol, st
 
 
@@ -312,15 +402,15 @@ def _merge_configs(per_cfg, cfgs):
     the smallest violation; replace the single config by the set of configs
     that show it"""
     best = {}
-    for vs in per_cfg:
+    for vs, cnames in per_cfg:
         for feat, case, exp, obs, size in vs:
             k = (feat['divergence'], feat['probe'], feat['op'], feat['op_target'],
-                 feat['victims'], feat['end'])
+                 feat['victims'], feat['end'], feat['at'])
             b = best.get(k)
             if b is None:
-                best[k] = [feat, case, exp, obs, size, {feat['config']}]
+                best[k] = [feat, case, exp, obs, size, set(cnames)]
             else:
-                b[5].add(feat['config'])
+                b[5].update(cnames)
                 if size < b[4]:
                     b[0], b[1], b[2], b[3], b[4] = feat, case, exp, obs, size
     out = []
@@ -356,7 +446,7 @@ def _lay(pairs, mode):
 
 def space(tier):
     """-> list of (family name, items, description); an item is
-    (ident, configs, dmax, cap)"""
+    (ident, configs, dmax, cap, lean)"""
     q = tier == 'quick'
     fams = []
 
@@ -367,12 +457,11 @@ def space(tier):
             if not _ok([(sid, cls)]):
                 continue
             for mode in _modes([(sid, cls)]):
-                items.append((_lay([(sid, cls)], mode), O0O2, 3 if q else 4,
-                              1000 if q else 20000))
+                items.append((_lay([(sid, cls)], mode), O0O2, 3, 1000 if q else 3000, q))
     fams.append(('single', items, {
-        'what': 'one declaration: 15 shapes x 5 storage classes (unsupported cells listed), '
+        'what': 'one declaration: 15 shapes x 6 storage classes (unsupported cells listed), '
                 'subscript modes c/v for arrays',
-        'configs': 'O0,O2', 'max_depth': 3 if q else 4}))
+        'configs': 'O0,O2', 'max_depth': 3, 'cap': 1000 if q else 3000, 'lean': q}))
 
     # (2) sandwich: scalar, A, scalar in one storage class
     items = []
@@ -385,24 +474,26 @@ def space(tier):
             if q:
                 modes = [modes[n % len(modes)]]
             for mode in modes:
-                items.append((_lay(pairs, mode), O0O2, 2 if q else 3, 1000 if q else 12000))
+                items.append((_lay(pairs, mode), O0O2, 2, 1000, q))
     fams.append(('sandwich', items, {
         'what': 'INTEGER scalar, shape A, STRING scalar declared in this order in one storage '
-                'class, all 15 A x 5 classes',
-        'configs': 'O0,O2', 'max_depth': 2 if q else 3}))
+                'class, all 15 A x 6 classes; quick: one subscript mode per A (alternating), '
+                'thorough: both',
+        'configs': 'O0,O2', 'max_depth': 2, 'cap': 1000, 'lean': q}))
 
     # (3) same-class lists over the core shapes
     items = []
     for cls in G.CLASSES:
         lists = []
-        if q:
-            for a, b in itertools.product(CORE_BIG, repeat=2):
-                lists.append([a, b, 'i'])
-        else:
-            for n in (2, 3):
-                for t in itertools.product(CORE, repeat=n):
+        for a, b in itertools.product(CORE_BIG, repeat=2):
+            lists.append([a, b, 'i'])
+        if not q:
+            for t in itertools.product(CORE, repeat=2):
+                lists.append(list(t))
+            for t in itertools.product(['i', 'a1', 'r2'], repeat=3):
+                if list(t) not in lists:
                     lists.append(list(t))
-            for t in itertools.product(['i', 'a1', 'r2'], repeat=4):
+            for t in itertools.product(['z', 'ar'], repeat=3):
                 lists.append(list(t))
         for n, l in enumerate(lists):
             pairs = [(s, cls) for s in l]
@@ -410,12 +501,12 @@ def space(tier):
                 continue
             modes = _modes(pairs)
             mode = modes[n % len(modes)]
-            items.append((_lay(pairs, mode), O0O2, 2, 1000 if q else 3000))
+            items.append((_lay(pairs, mode), O0O2, 2, 1000, True))
     fams.append(('lists', items, {
-        'what': ('ordered lists in one storage class; quick: (A, B, INTEGER) for A, B in %s; '
-                 'thorough: all lists of length 2-3 over %s and of length 4 over [i, a1, r2]'
-                 % (CORE_BIG, CORE)),
-        'configs': 'O0,O2', 'max_depth': 2,
+        'what': ('ordered lists in one storage class; (A, B, INTEGER) for A, B in %s; '
+                 'thorough adds all lists of length 2 over %s and of length 3 over [i, a1, r2] '
+                 'and over [z, ar]' % (CORE_BIG, CORE)),
+        'configs': 'O0,O2', 'max_depth': 2, 'cap': 1000, 'lean': True,
         'mode': 'alternating c/v by position in the enumeration'}))
 
     # (4) mixed storage classes
@@ -423,13 +514,17 @@ def space(tier):
     shp = [('r2', 'a1')] if q else [('i', 'r2'), ('r2', 'a1'), ('a1', 'i'), ('r2', 'r2'),
                                     ('a1', 'ar'), ('rn', 'z')]
     cpairs = [(a, b) for a in SITE_SUB for b in SITE_SUB if a != b] + [('M', 'S'), ('S', 'M')]
+    cpairs += [('F', c) for c in ('S', 'L', 'T')] + [(c, 'F') for c in ('S', 'L', 'T')]
     n = 0
     for (ca, cb) in cpairs:
         for (sa, sb) in shp:
+            if 'F' in (ca, cb):
+                # an array parameter handed on is the known finding: scalars / records only
+                sa, sb = {'a1': 'i', 'ar': 'r2'}.get(sa, sa), {'a1': 'i', 'ar': 'r2'}.get(sb, sb)
             pairs = [(sa, ca), (sb, cb)]
             if _ok(pairs):
                 modes = _modes(pairs)
-                items.append((_lay(pairs, modes[n % len(modes)]), O0O2, 2, 1000 if q else 3000))
+                items.append((_lay(pairs, modes[n % len(modes)]), O0O2, 2, 1000, q))
                 n += 1
     if not q:
         # one declaration in each class of the SUB site, every rotation
@@ -438,37 +533,42 @@ def space(tier):
                 pairs = [(sid, c) for c in perm]
                 if _ok(pairs):
                     modes = _modes(pairs)
-                    items.append((_lay(pairs, modes[n % len(modes)]), O0O2, 2, 3000))
+                    items.append((_lay(pairs, modes[n % len(modes)]), O0O2, 2, 1000, q))
                     n += 1
     fams.append(('mixed', items, {
         'what': 'two declarations in two different storage classes (all ordered class pairs '
-                'of the SUB site S/L/T/P, and M with S); thorough adds 4 declarations, one '
-                'per class, in every order',
-        'shape_pairs': [list(x) for x in shp], 'configs': 'O0,O2', 'max_depth': 2}))
+                'of the SUB site S/L/T/P, F with S/L/T, and M with S); thorough adds 4 '
+                'declarations, one per class S/L/T/P, in every order',
+        'shape_pairs': [list(x) for x in shp], 'configs': 'O0,O2', 'max_depth': 2, 'lean': q}))
 
     # (5) recursion: the driver body inside a SUB that calls itself
     items = []
     recs = [
-        [('i', 'S'), ('i', 'T'), ('i', 'L'), ('i', 'P')],
-        [('r2', 'S'), ('a1', 'T'), ('z', 'L'), ('a1', 'L'), ('a1', 'P')],
+        ([('i', 'S'), ('i', 'T'), ('i', 'L'), ('i', 'P'), ('z', 'F')], 5),
+        ([('r2', 'S'), ('a1', 'T'), ('z', 'L'), ('a1', 'L'), ('a1', 'P')], 4 if q else 5),
     ]
     if not q:
         recs += [
-            [('z', 'S'), ('z', 'T'), ('z', 'L'), ('z', 'P')],
-            [('a1', 'S'), ('r2', 'T'), ('r2', 'L'), ('ar', 'L'), ('ar', 'P')],
-            [('rn', 'T'), ('d', 'L'), ('d', 'P'), ('rn', 'L')],
-            [('dy', 'S'), ('an', 'T'), ('dy', 'L'), ('b1', 'L'), ('b1', 'P')],
+            ([('z', 'S'), ('z', 'T'), ('z', 'L'), ('z', 'P'), ('r2', 'F')], 5),
+            ([('a1', 'S'), ('r2', 'T'), ('r2', 'L'), ('ar', 'L'), ('ar', 'P')], 5),
+            ([('rn', 'T'), ('d', 'L'), ('d', 'P'), ('rn', 'L'), ('rn', 'F')], 5),
+            ([('dy', 'S'), ('an', 'T'), ('dy', 'L'), ('b1', 'L'), ('b1', 'P')], 4),
+            ([('i', 'L'), ('a1', 'F')], 4),
         ]
-    for n, pairs in enumerate(recs):
+    for n, (pairs, dep) in enumerate(recs):
         for mode in (_modes(pairs) if not q else [_modes(pairs)[-1]]):
-            items.append(({'family': 'recursion', 'decls': [list(p) for p in pairs],
-                           'mode': mode}, ALL6, 5 if q else 6, 6000 if q else 60000))
+            for cf in ([(0, False), (0, True)], [(1, False), (1, True)], [(2, False), (2, True)]):
+                items.append(({'family': 'recursion', 'decls': [list(p) for p in pairs],
+                               'mode': mode}, cf, dep, 6000 if q else 20000, False))
     fams.append(('recursion', items, {
         'what': 'SUB drv(dep, params) with the loop inside; ops: write any location, call '
-                '(dep < 3; passes its own locals as the arguments), return; after every '
+                '(dep < 3; passes its own locals (class P) or its own parameter (class F) as '
+                'the arguments), return; after every '
                 'transition both dumps and a complete unwind (return + dump at every level, '
                 'then the caller\'s view) are compared with a stack-of-dicts model',
-        'configs': 'all 6', 'max_call_depth': G.REC_MAXDEPTH, 'max_depth': 5 if q else 6}))
+        'lists': [[' '.join(f'{s}:{c}' for s, c in pairs), dep] for pairs, dep in recs],
+        'configs': 'all 6 (one item per optimisation level)',
+        'max_call_depth': G.REC_MAXDEPTH, 'max_depth': 'per list, see lists'}))
 
     # (6) by-reference / by-value arguments
     items = []
@@ -482,30 +582,39 @@ def space(tier):
             if not _ok(pairs):
                 continue
             items.append(({'family': 'byref', 'decls': [list(p) for p in pairs], 'mode': 'c'},
-                          ALL6 if sid in ('i', 'r2', 'ar') else O0O2, 2, 700 if q else 4000))
+                          ALL6 if sid in ('i', 'r2', 'ar') else O0O2, 2, 700 if q else 2000,
+                          False))
     fams.append(('byref', items, {
         'what': 'every location of the host declaration passed to SUB w1(p) in the forms x, '
                 '(x), x + 0 / x + "", literal, and every same-typed pair (incl. the same '
                 'location twice) to SUB w2(p, q); the callee prints, writes, prints',
         'hosts': hosts, 'host_classes': ['M', 'S', 'L', 'T'],
-        'configs': 'all 6 for hosts i, r2, ar; O0,O2 otherwise', 'max_depth': 2}))
+        'configs': 'all 6 for hosts i, r2, ar; O0,O2 otherwise', 'max_depth': 2,
+        'cap': 700 if q else 2000}))
     return fams
+
+
+def _weight(item):
+    """rough cost of an item, to start the expensive ones first"""
+    ident, cfgs, dmax, cap, lean = item
+    drv = G.make_driver(ident)
+    d = depth_for(drv, dmax, cap)
+    return (drv.n_menu() ** d) * len(cfgs) * (len(drv.leaves) + 4) * (1 if lean else 2)
 
 
 def run(chk):
     fams = space(chk.tier)
     desc = {}
+    work = []
     for name, items, d in fams:
         if chk.only and name not in chk.only:
             chk.cov['exhaustive'] = False
             continue
         d = dict(d)
-        d['drivers'] = len(items)
+        d['drivers'] = len(set(json.dumps(it[0], sort_keys=True) for it in items))
+        d['items'] = len(items)
         desc[name] = d
-        # similar programs adjacent; heavy ones first inside the family
-        for viol, st in chk.pmap(explore_chunk, items, extra=(chk.tier,), chunk=2):
-            chk.add_violations(viol)
-            chk.merge_stats(st)
+        work += [(name,) + tuple(it) for it in items]
         for it in (items[0], items[-1]):
             drv = G.make_driver(it[0])
             st0 = drv.initial()
@@ -513,8 +622,22 @@ def run(chk):
                         'source_lines': drv.source.count('\n'),
                         'locations': [lf.ctext for lf in drv.leaves][:12],
                         'first_ops': [o.label() + '  <- ' + o.line for o in drv.menu(st0)[:4]]})
-    sets = chk.cov.get('_sets', {})
-    chk.cov['distinct_nontrivial'] = len(sets.get('sources', ())) + 0
+    # one pool pass over all families; the 24 most expensive items first (one
+    # per worker), the rest in family order (similar programs adjacent)
+    ws = sorted(range(len(work)), key=lambda i: -_weight(work[i][1:]))
+    head = ws[:24]
+    order = head + [i for i in range(len(work)) if i not in set(head)]
+    cpu = {}
+    for viol, st in chk.pmap(explore_chunk, [work[i] for i in order], extra=(chk.tier,), chunk=1):
+        chk.add_violations(viol)
+        for name, c, what in st.pop('cpu_by_driver'):
+            cpu.setdefault(name, []).append((c, what))
+        chk.merge_stats(st)
+    for name, lst in cpu.items():
+        lst.sort(reverse=True)
+        desc[name]['cpu_s'] = round(sum(c for c, _ in lst), 1)
+        desc[name]['slowest_items'] = [list(c) for c in lst[:3]]
+    chk.cov['cpu_s_total'] = round(sum(c for lst in cpu.values() for c, _ in lst), 1)
     chk.cov['unsupported_cells'] = {f'{s}:{c}': why for (s, c), why in G.UNSUPPORTED.items()}
     chk.cov['shapes'] = {s.sid: (s.kind, s.elem, s.dims) for s in G.SHAPES}
     chk.cov['classes'] = G.CLASS_TEXT
@@ -525,14 +648,20 @@ def run(chk):
         'nothing is claimed for declaration lists, operation sequences or call depths above the '
         'stated bounds',
         'per-line parse memo is byte-identical to re-parsing (DESIGN 2.4)',
+        'configurations whose modules are byte-identical outside the debug section behave alike '
+        '(one exploration serves them)',
     ]
     chk.finish(
         rule=('one driver program per (declaration list, subscript mode); VX explores every '
-              'sequence of {write l, read l, dump} (layout), {write l, call, return} (recursion), '
+              'sequence of {write l, read l, dump} (layout; lean: a read only as the last '
+              'operation), {write l, call, return} (recursion), '
               '{w1(form of l), w2(l, l\')} (byref) up to the depth chosen per driver (largest '
               'd <= max_depth with sum m^k <= cap, m = menu size); evaluations = transitions '
-              'compared with the dict model + fork observations (dumps, caller view, unwind); '
-              'distinct_nontrivial = distinct driver sources that compiled and were explored'),
+              'whose output was compared with the dict model + fork observations (dumps, '
+              'caller view, unwind) compared with it; distinct_nontrivial = distinct canonical '
+              'VM states (per distinct module) whose model store is not all-default and whose '
+              'complete content was dumped and compared; outcomes = distinct (family, '
+              'operation or observation kind, end, output matches) tuples'),
         extra_cov={'families': desc})
 
 
@@ -558,6 +687,8 @@ def replay(rec):
     env = impl.Env({'input': list(lines)})
     out, _ = impl.run_module(mod, env, horizon=400000)
     tail = ''.join(_segments(out.events)[k + 1:])
+    if out.end == 'exhausted' and tail.endswith('? '):
+        tail = tail[:-2]            # the prompt of the INPUT that found the script empty
     exp = case['expected_tail']
     print('--- end:', out.end, out.trap, out.exc, out.where)
     print('expected:', repr(exp))
